@@ -34,7 +34,7 @@ func cbMessage(n int) string {
 func TestC05(t *testing.T) {
 	ev := verifev.New("C05", "streams")
 	// ---- streams: every request with field lengths in {0,1,2} over {a, NUL}, truncated at every byte,
-	//      with trailing bytes; over-long length prefixes in every position; the empty stream
+	//      with trailing bytes; over-long length prefixes in every position; 17 special field contents ('@', blanks, line ends, separators, non-UTF-8) in every position; the empty stream
 	var streams [][]byte
 	fld := func(n, k int) string { return strings.Repeat(string([]byte{"a\x00"[k%2]}), n) }
 	for l0 := 0; l0 <= 2; l0++ {
@@ -66,6 +66,18 @@ func TestC05(t *testing.T) {
 				s = append(s, bytes.Repeat([]byte{'z'}, n)...)
 			}
 			streams = append(streams, s)
+		}
+	}
+	// field contents that mean something in other layers (separators of realm, LDAP, URL, shell,
+	// white space): the callback must get them byte for byte, whatever the other fields hold
+	special := []string{"a@b", "a@", "@a", "a@b@c", "a b", " a", "a ", "a\n", "a\r\n", "a:b", "a,b", "a=b", "a/b", "a%40b", "A", "\xff\xfe", "a\x00"}
+	for _, sp := range special {
+		for pos := 0; pos < 4; pos++ {
+			for _, rest := range []string{"", "r"} {
+				f := []string{"u", "p", rest, rest}
+				f[pos] = sp
+				streams = append(streams, refEncodeParts(f[0], f[1], f[2], f[3]))
+			}
 		}
 	}
 	// dedupe
